@@ -2,7 +2,7 @@
    sender and the receiver machine over perfect FIFO queues. *)
 From Coq Require Import ZArith Lia.
 From Trzsz Require Import Base.Bytes Gen.Consts Model.Path Model.Fs Model.Names Model.Escape Model.Base64
-  Model.Wire Model.Transfer Proofs.PathFs Proofs.Names Proofs.Wire.
+  Model.Wire Model.Transfer Proofs.PathFs Proofs.Names Proofs.Wire Proofs.TransferFs.
 
 (* The model's reading of the source is pinned to what the translator found: the decision
    list of isCompressFixed, the protocol switches, and the order of the per-file calls. *)
@@ -613,26 +613,35 @@ Qed.
 Definition entries_steps (c : tr_cfg) (ess : list (tr_entry * tr_sched)) : nat :=
   fold_right (fun es n => tr_entry_steps digest zcomp c es + n)%nat 0%nat ess.
 
+Lemma run_entries_prefix c d rest : table_ok c -> forall ess st names L per all stf,
+  Forall (fun es => bytes_ok (te_data (fst es)) = true) ess ->
+  tr_spec c d (map fst ess) st names = Some (per, all, stf) ->
+  runf (entries_steps c ess) c d (between c (ess ++ rest) st names L) = between c rest stf all (L ++ all_log c ess per).
+Proof.
+  intros Ht. induction ess as [|[e sc] ess IH]; intros st names L per all stf Hb Hs.
+  - cbn in Hs. inversion Hs; subst. cbn [entries_steps fold_right tr_run_from all_log app]. rewrite app_nil_r. reflexivity.
+  - cbn [map fst tr_spec] in Hs. destruct (tr_spec_entry c d e st) as [[ln st1]|] eqn:Ee; [|discriminate].
+    destruct (tr_spec c d (map fst ess) st1 (tr_add_name names ln)) as [[[per' all'] stf']|] eqn:Er; [|discriminate].
+    inversion Hs; subst. inversion Hb as [|? ? Hb1 Hb2]; subst. cbn [fst] in Hb1.
+    unfold entries_steps. cbn [fold_right]. fold (entries_steps c ess). rewrite run_add.
+    cbn [all_log app]. unfold entry_log. cbn [fst snd]. rewrite entry_steps_eq.
+    destruct (te_isdir e) eqn:Hd.
+    + rewrite (entry_dir c d e sc (ess ++ rest) st names L ln st1 Hd Ee).
+      rewrite (IH _ _ _ _ _ _ Hb2 Er), <- app_assoc. reflexivity.
+    + destruct (tr_pipeline c) eqn:Hp.
+      * rewrite (entry_file_v2 c d e sc (ess ++ rest) st names L ln st1 Hp Ht Hb1 Hd Ee).
+        rewrite (IH _ _ _ _ _ _ Hb2 Er), <- app_assoc. reflexivity.
+      * rewrite (entry_file_v1 c d e sc (ess ++ rest) st names L ln st1 Hp Ht Hb1 Hd Ee).
+        rewrite (IH _ _ _ _ _ _ Hb2 Er), <- app_assoc. reflexivity.
+Qed.
+
 Lemma run_entries c d : table_ok c -> forall ess st names L per all stf,
   Forall (fun es => bytes_ok (te_data (fst es)) = true) ess ->
   tr_spec c d (map fst ess) st names = Some (per, all, stf) ->
   runf (entries_steps c ess) c d (between c ess st names L) = between c [] stf all (L ++ all_log c ess per).
 Proof.
-  intros Ht. induction ess as [|[e sc] ess IH]; intros st names L per all stf Hb Hs.
-  - cbn in Hs. inversion Hs; subst. cbn [entries_steps fold_right tr_run_from all_log]. rewrite app_nil_r. reflexivity.
-  - cbn [map fst tr_spec] in Hs. destruct (tr_spec_entry c d e st) as [[ln st1]|] eqn:Ee; [|discriminate].
-    destruct (tr_spec c d (map fst ess) st1 (tr_add_name names ln)) as [[[per' all'] stf']|] eqn:Er; [|discriminate].
-    inversion Hs; subst. inversion Hb as [|? ? Hb1 Hb2]; subst. cbn [fst] in Hb1.
-    unfold entries_steps. cbn [fold_right]. fold (entries_steps c ess). rewrite run_add.
-    cbn [all_log]. unfold entry_log. cbn [fst snd]. rewrite entry_steps_eq.
-    destruct (te_isdir e) eqn:Hd.
-    + rewrite (entry_dir c d e sc ess st names L ln st1 Hd Ee).
-      rewrite (IH _ _ _ _ _ _ Hb2 Er), <- app_assoc. reflexivity.
-    + destruct (tr_pipeline c) eqn:Hp.
-      * rewrite (entry_file_v2 c d e sc ess st names L ln st1 Hp Ht Hb1 Hd Ee).
-        rewrite (IH _ _ _ _ _ _ Hb2 Er), <- app_assoc. reflexivity.
-      * rewrite (entry_file_v1 c d e sc ess st names L ln st1 Hp Ht Hb1 Hd Ee).
-        rewrite (IH _ _ _ _ _ _ Hb2 Er), <- app_assoc. reflexivity.
+  intros Ht ess st names L per all stf Hb Hs.
+  pose proof (run_entries_prefix c d [] Ht ess st names L per all stf Hb Hs) as Hr. rewrite app_nil_r in Hr. exact Hr.
 Qed.
 
 (* ---------- the whole run ---------- *)
@@ -682,6 +691,73 @@ Proof.
   replace fuel with (tr_fuel digest zcomp c ess + (fuel - tr_fuel digest zcomp c ess))%nat by lia.
   rewrite run_add, fuel_eq, run_add, init_two_steps, run_add, (run_entries c d Ht ess _ _ _ per all stf Hb Hs), last_step.
   rewrite run_stuck by apply final_stuck. unfold full_log. norm_app. reflexivity.
+Qed.
+
+(* ---------- the receiver refuses an entry (or an unmodelled exchange would start) ---------- *)
+Lemma entry_fail c d e sc ess st names L :
+  (te_isdir e = true -> tr_json c = true) -> tr_spec_entry c d e st = None ->
+  let cf := runf 2 c d (between c ((e, sc) :: ess) st names L) in
+  stepc c d cf = None /\ tr_sender_ok digest cf = false /\ tr_receiver_ok digest cf = false.
+Proof.
+  intros Hdj Hs. rewrite between_cons.
+  rewrite (run_S _ _ _ _ _ (step_recv' _ _ _ _ _ _ _ _)), rcv_name.
+  unfold tr_spec_entry in Hs.
+  assert (E0 : te_isdir e && negb (tr_json c) = false).
+  { destruct (te_isdir e); [rewrite (Hdj eq_refl); reflexivity | reflexivity]. }
+  rewrite E0 in Hs. unfold tr_r_name. cbn [rs_st rs_names rs_phase rs_left rs_sched].
+  destruct (tr_create c d (tr_payload c e) [] st) as [[ln|] st1] eqn:E1.
+  - rewrite payload_archive, (payload_isdir _ _ E0).
+    destruct (te_isdir e) eqn:Hd; [discriminate|].
+    destruct (tr_json_names c && (0 <? tr_target_size d ln (tr_payload c e) st1)) eqn:E2.
+    + (* the resume exchange would start *)
+      apply andb_true_iff in E2 as [Ej E2]. unfold tr_r_phase. cbn [fst snd app rs_st rs_names rs_phase rs_left rs_sched].
+      fold (name_reply c ln (tr_target_size d ln (tr_payload c e) st1)).
+      rewrite (run_one _ _ _ _ (step_send' _ _ _ _ _ _ _)), snd_name. unfold tr_s_named. rewrite Hd, Ej, E2.
+      cbn [fst snd]. repeat split.
+    + pose proof (tr_create_indep c d (tr_payload c e) [] (te_data e) st) as Hi. rewrite E1 in Hi. cbn [fst] in Hi.
+      destruct (tr_create c d (tr_payload c e) (te_data e) st) as [[l2|] st2]; [discriminate | discriminate].
+  - unfold tr_r_fail. cbn [fst snd app rs_st rs_names rs_phase rs_left rs_sched].
+    rewrite (run_one _ _ _ _ (step_send' _ _ _ _ _ _ _)). cbn [tr_sender ss_phase fst snd]. repeat split.
+Qed.
+
+Lemma spec_none_split c d : forall (ess : list (tr_entry * tr_sched)) st names, tr_spec c d (map fst ess) st names = None ->
+  exists pre e sc post per all st1, ess = pre ++ (e, sc) :: post /\
+    tr_spec c d (map fst pre) st names = Some (per, all, st1) /\ tr_spec_entry c d e st1 = None.
+Proof.
+  induction ess as [|[e sc] ess IH]; intros st names Hs; [discriminate|].
+  cbn [map fst tr_spec] in Hs. destruct (tr_spec_entry c d e st) as [[ln st1]|] eqn:Ee.
+  - destruct (tr_spec c d (map fst ess) st1 (tr_add_name names ln)) as [[[per' all'] stf']|] eqn:Er; [discriminate|].
+    destruct (IH _ _ Er) as (pre & e2 & sc2 & post & per & all & st2 & -> & Hp & He).
+    exists ((e, sc) :: pre), e2, sc2, post, (ln :: per), all, st2. split; [reflexivity|]. split; [|exact He].
+    cbn [map fst tr_spec]. rewrite Ee, Hp. reflexivity.
+  - exists [], e, sc, ess, [], names, st. repeat split. exact Ee.
+Qed.
+
+Lemma entry_steps_ge2 c es : (2 <= tr_entry_steps digest zcomp c es)%nat.
+Proof. destruct es as [e sc]. unfold tr_entry_steps. destruct (te_isdir e); [lia|]. destruct (tr_pipeline c); lia. Qed.
+
+Lemma entries_steps_app c a b : entries_steps c (a ++ b) = (entries_steps c a + entries_steps c b)%nat.
+Proof. unfold entries_steps. induction a as [|x a IH]; [reflexivity|]. cbn [app fold_right]. rewrite IH. lia. Qed.
+
+Theorem run_incomplete c d ess f0 : table_ok c ->
+  Forall (fun es => bytes_ok (te_data (fst es)) = true) ess ->
+  Forall (fun es => te_isdir (fst es) = true -> tr_json c = true) ess ->
+  tr_spec c d (map fst ess) (init_state f0) [] = None ->
+  forall fuel, (tr_fuel digest zcomp c ess <= fuel)%nat ->
+  tr_sender_ok digest (tr_run digest H deq zcomp zdecomp zl unzl fuel c d ess f0) = false /\
+  tr_receiver_ok digest (tr_run digest H deq zcomp zdecomp zl unzl fuel c d ess f0) = false.
+Proof.
+  intros Ht Hb Hdj Hs fuel Hf.
+  destruct (spec_none_split c d ess _ _ Hs) as (pre & e & sc & post & per & all & st1 & -> & Hp & He).
+  apply Forall_app in Hb as [Hb1 _]. apply Forall_app in Hdj as [_ Hdj]. inversion Hdj as [|? ? Hdj1 _]; subst. cbn [fst] in Hdj1.
+  rewrite fuel_eq, entries_steps_app in Hf. cbn [entries_steps fold_right] in Hf. fold (entries_steps c post) in Hf.
+  pose proof (entry_steps_ge2 c (e, sc)) as H2.
+  unfold tr_run.
+  replace fuel with (2 + (entries_steps c pre + (2 + (fuel - 4 - entries_steps c pre))))%nat by lia.
+  rewrite run_add, init_two_steps, run_add, (run_entries_prefix c d ((e, sc) :: post) Ht pre _ _ _ per all st1 Hb1 Hp), run_add.
+  match goal with |- context [between c ((e, sc) :: post) st1 all ?L] =>
+    destruct (entry_fail c d e sc post st1 all L Hdj1 He) as (A & B & C) end.
+  rewrite run_stuck by exact A. split; assumption.
 Qed.
 
 End TransferProofs.
